@@ -402,7 +402,7 @@ fn run(ctx: &Ctx) -> Report {
     report.count_n("negative_table_taken", taken);
     if stride == 1 {
         report.exhaustive = Some(true);
-        report.notes.push("thorough tier: the negative table was enumerated completely".into());
+        report.notes.push("the negative table was enumerated completely".into());
     }
     if snippets.len() < 50 {
         report.inconclusive("could not read the unit-test snippets from /repo");
